@@ -1,5 +1,5 @@
 """C01 — TFIM sampler and the quantum thermal state (partial by nature; see QmcProps/C01.lean)."""
-LEAN_TARGETS = ["QmcProps.C01", "drv_c01", "QmcProps.C08", "drv_c08", "QmcProps.C09", "drv_c09"]
+LEAN_TARGETS = ["QmcProps.C01", "drv_c01", "QmcProps.C08", "drv_c08", "QmcProps.C09", "drv_c09", "QmcProofs.KernelInvariance"]
 BINS = ["c01", "c08", "c09"]
 
 # Theorems of other properties that C01's claim rests on (kernel invariance of the SSE weight): they are
@@ -10,6 +10,15 @@ KERNEL_THEOREMS = [
     "Qmc.C08.offdiag_never_altered_M", "Qmc.C08.zero_weight_never_inserted_M",
     "Qmc.C09.clusterMove_weight_ising", "Qmc.C09.clusterMove_symm", "Qmc.C09.clusterMove_consistent",
     "Qmc.C09.clusterFlips_half", "Qmc.C09.clusterFlips_weight0",
+]
+# composition into one `timestep` kernel (QmcProofs/KernelInvariance.lean, design_notes/KernelInvariance.md)
+COMPOSITION_THEOREMS = [
+    "Qmc.Kernel.slot_kernel_reversible", "Qmc.Kernel.slot_kernel_reversible_hb",
+    "Qmc.Kernel.sweep_invariant", "Qmc.Kernel.sweep_invariant_hb",
+    "Qmc.Kernel.sweep_uses_stateAt_M", "Qmc.Kernel.cluster_kernel_reversible",
+    "Qmc.Kernel.cluster_kernel_reversible_consistent", "Qmc.Kernel.free_refresh_invariant",
+    "Qmc.Kernel.timestep_invariant_with", "Qmc.Kernel.timestep_invariant", "Qmc.Kernel.timestep_invariant_hb",
+    "Qmc.Kernel.timestep_rowSum", "Qmc.Kernel.ising_clusterSym",
 ]
 
 THEOREMS = [
@@ -40,6 +49,8 @@ def main(ck):
         ck.prop = save + "k"          # separate .audit file
         ck.audit("QmcProps.C09", [t for t in KERNEL_THEOREMS if t.startswith("Qmc.C09")])
         ck.audit("QmcProps.C08", [t for t in KERNEL_THEOREMS if t.startswith("Qmc.C08")])
+        ck.prop = save + "c"
+        ck.audit("QmcProofs.KernelInvariance", COMPOSITION_THEOREMS)
         ck.prop = save
     if ck.cargo_build(BINS):
         for mode in ["ham", "energy", "refresh", "pipeline"]:
